@@ -23,10 +23,14 @@ func init() {
 
 func runC09(c *Ctx) {
 	r := c.R
+	// Instance minima count the semantic facts a rule must establish (one per kind of section source, per
+	// attribute, per table cell, per guarded write …), not the incidental number of sites: a refactor that merges
+	// two sites (one error return instead of two, one literal shared by two arms, a block moved into a helper)
+	// must not trip them, while losing an anchor still does.
 	r.Rule("C09.R1", "RTPTransceiver.mid is stored only in SetMid, the store is dominated by a test that the current mid (t.Mid()) is empty, and the stored value is SetMid's parameter; no composite literal initialises it", 2)
-	r.Rule("C09.R2", "PeerConnection.greaterMid is only ever increased: every write is `++`, `+= positive constant`, or `= x` dominated by a true test `x > pc.greaterMid`; every write holds pc.mu exclusively; the constructor initialises it to a negative constant", 4)
-	r.Rule("C09.R3", "section order: generateMatchedSDP and generateUnmatchedSDP only tail-append section literals to the list handed to populateSDP; no remote-loop append is reachable after an unmatched-transceiver or data append, no transceiver append after the data append; populateSDP emits the list by a forward range", 12)
-	r.Rule("C09.R4", "fresh-mid provenance (shared with C06.R1): section ids derive from the remote mid, the section's transceiver or a guarded Plan-B constant; SetMid arguments from the remote mid or the allocator incremented before every use", 13)
+	r.Rule("C09.R2", "PeerConnection.greaterMid is only ever increased: every write is `++`, `+= positive constant`, or `= x` dominated by a true test `x > pc.greaterMid`; every write holds pc.mu exclusively; the constructor initialises it to a negative constant", 3)
+	r.Rule("C09.R3", "section order: generateMatchedSDP and generateUnmatchedSDP only tail-append section literals to the list handed to populateSDP; no remote-loop append is reachable after an unmatched-transceiver or data append, no transceiver append after the data append; populateSDP emits the list by a forward range", 8)
+	r.Rule("C09.R4", "fresh-mid provenance (shared with C06.R1): section ids derive from the remote mid, the section's transceiver or a guarded Plan-B constant; SetMid arguments from the remote mid or the allocator incremented before every use", 8)
 	r.Rule("C09.R5", "fresh-mid allocation sees every existing mid: each iteration of CreateOffer's scans over the current remote description's sections and over the transceivers either compares the element's mid with greaterMid (raise) / allocates with ++, or skips only because the element has no mid or a non-numeric one", 2)
 	r.Rule("C09.R6", "a data-section mid computed from len(sections) is evaluated at the data section's own append, after every other section was appended (keeps the recorded len-based-mid finding from colliding inside one description)", 1)
 	r.NotCovered = append(r.NotCovered,
@@ -423,15 +427,15 @@ func c09R3(env *c06Env) {
 		for _, n := range ids {
 			s := appends[n]
 			src := "(none)"
-			if e, has := s.Fields["id"]; has {
-				src = c06MidSource(env, g, n, e).Desc
+			if sr, has := s.idSrc(env); has {
+				src = sr.Desc
 			}
 			key := fi.Name() + "|append:" + class[n] + "|mediaSection{" + s.fieldNames() + "}|id<-" + src
 			seen[key]++
 			if seen[key] > 1 {
 				key += sprintf("#%d", seen[key])
 			}
-			pos := c.P.Pos(s.Lit.Pos())
+			pos := c.P.Pos(s.pos())
 			var succ []int
 			for _, e := range g.Nodes[n].Succs {
 				succ = append(succ, e.To)
